@@ -391,7 +391,9 @@ func (r *rewriter) transform(m ast.Node) (string, bool) {
 func deterministicKey(t types.Type) bool {
 	switch u := t.Underlying().(type) {
 	case *types.Basic:
-		return u.Info()&(types.IsString|types.IsInteger|types.IsBoolean) != 0
+		// floats included: keys are sorted by value, NaN keys (which nothing can
+		// tell apart) are handled by the iterator
+		return u.Info()&(types.IsString|types.IsInteger|types.IsBoolean|types.IsFloat) != 0
 	case *types.Array:
 		return deterministicKey(u.Elem())
 	case *types.Struct:
